@@ -1,5 +1,5 @@
 (* Proofs about the demand model (property C14). *)
-From Coq Require Import List ZArith Bool Arith Lia.
+From Coq Require Import List ZArith Bool Arith Lia ZifyNat.
 From Vy Require Import Model.Demand.
 Import ListNotations.
 
@@ -607,15 +607,15 @@ Section Interleave.
     exact (m_interleave other) src n (prefix (interleaved src other) n) ((n + 1) / 2).
   Proof.
     pose proof (run_exact_pred (m_interleave other) src n ((n + 1) / 2)) as H.
-    unfold m_interleave in *. rewrite trace_multi in H. simpl fst in H. simpl snd in H.
+    unfold m_interleave in *. rewrite trace_multi in H. cbn [fst snd] in H.
     rewrite multis_interleave, firstn_prefix in H by lia. apply H.
     - reflexivity.
     - rewrite prefix_length. lia.
-    - destruct n as [|n]; [left; reflexivity|right]. rewrite trace_multi. simpl snd.
+    - destruct n as [|n]; [left; reflexivity|right]. rewrite trace_multi. cbn [snd].
       rewrite multis_interleave, prefix_length. lia.
   Qed.
 
-  Lemma interleave_bounded (d : I) other : lin_bounded (m_interleave other) 1 0.
+  Lemma interleave_bounded (other : nat -> I) : lin_bounded (m_interleave other) 1 0.
   Proof.
     apply productive_bounded; [|reflexivity]. intros s x. simpl. lia.
   Qed.
@@ -625,8 +625,8 @@ Section Interleave.
     trace (m_interleave_r other) src k = (k, prefix (interleaved other src) (S (2 * k))).
   Proof.
     induction k as [|k IH].
-    - unfold trace, feed. simpl. rewrite (interleaved_even other src 0). reflexivity.
-    - rewrite trace_S, IH, feed_step_pair. simpl fst. simpl snd. f_equal.
+    - reflexivity.
+    - rewrite trace_S, IH, feed_step_pair. simpl fst. cbn [snd]. f_equal.
       replace (2 * S k) with (S (S (2 * k))) by lia.
       rewrite (prefix_S _ (S (S (2 * k)))), (prefix_S _ (S (2 * k))).
       rewrite interleaved_odd. replace (S (S (2 * k))) with (2 * S k) by lia.
@@ -637,15 +637,15 @@ Section Interleave.
     exact (m_interleave_r other) src n (prefix (interleaved other src) n) (n / 2).
   Proof.
     pose proof (run_exact_pred (m_interleave_r other) src n (n / 2)) as H.
-    rewrite trace_interleave_r in H. simpl fst in H. simpl snd in H.
+    rewrite trace_interleave_r in H. cbn [fst snd] in H.
     rewrite firstn_prefix in H by lia. apply H.
     - reflexivity.
     - rewrite prefix_length. lia.
-    - destruct (n / 2) as [|h] eqn:E; [left; reflexivity|right]. rewrite trace_interleave_r. simpl snd.
+    - destruct (n / 2) as [|h] eqn:E; [left; reflexivity|right]. rewrite trace_interleave_r. cbn [snd].
       rewrite prefix_length. lia.
   Qed.
 
-  Lemma interleave_r_bounded (d : I) other : lin_bounded (m_interleave_r other) 1 0.
+  Lemma interleave_r_bounded (other : nat -> I) : lin_bounded (m_interleave_r other) 1 0.
   Proof.
     apply productive_bounded; [|reflexivity]. intros s x. simpl. lia.
   Qed.
@@ -693,13 +693,13 @@ Section InsertAt.
     exact (m_insert_at p v) src n (prefix (inserted p v src) n) (if n <=? S p then n else n - 1).
   Proof.
     pose proof (run_exact_pred (m_insert_at p v) src n (if n <=? S p then n else n - 1)) as H.
-    unfold m_insert_at in *. rewrite trace_multi in H. simpl fst in H. simpl snd in H.
+    unfold m_insert_at in *. rewrite trace_multi in H. cbn [fst snd] in H.
     rewrite multis_insert_at in H.
     destruct (n <=? S p) eqn:E.
     - apply Nat.leb_le in E. rewrite firstn_prefix in H by (destruct (n <=? p); lia). apply H.
       + reflexivity.
       + rewrite prefix_length. destruct (n <=? p); lia.
-      + destruct n as [|n]; [left; reflexivity|right]. rewrite trace_multi. simpl snd.
+      + destruct n as [|n]; [left; reflexivity|right]. rewrite trace_multi. cbn [snd].
         rewrite multis_insert_at, prefix_length.
         replace (S n - 1 <=? p) with true by (symmetry; apply Nat.leb_le; lia). lia.
     - apply Nat.leb_gt in E.
@@ -707,7 +707,7 @@ Section InsertAt.
       rewrite firstn_prefix in H by lia. apply H.
       + reflexivity.
       + rewrite prefix_length. lia.
-      + right. rewrite trace_multi. simpl snd. rewrite multis_insert_at, prefix_length.
+      + right. rewrite trace_multi. cbn [snd]. rewrite multis_insert_at, prefix_length.
         destruct (n - 1 - 1 <=? p); lia.
   Qed.
 End InsertAt.
@@ -759,10 +759,10 @@ Section Prepend.
     exact (m_prepend_list vs) src n (firstn n (vs ++ prefix src (n - length vs))) (n - length vs).
   Proof.
     pose proof (run_exact_pred (m_prepend_list vs) src n (n - length vs)) as H.
-    rewrite trace_prepend_list in H. simpl fst in H. simpl snd in H. apply H.
+    rewrite trace_prepend_list in H. cbn [fst snd] in H. apply H.
     - reflexivity.
     - rewrite app_length, prefix_length. lia.
-    - destruct (n - length vs) as [|h] eqn:E; [left; reflexivity|right]. rewrite trace_prepend_list. simpl snd.
+    - destruct (n - length vs) as [|h] eqn:E; [left; reflexivity|right]. rewrite trace_prepend_list. cbn [snd].
       rewrite app_length, prefix_length. lia.
   Qed.
 
@@ -770,8 +770,9 @@ Section Prepend.
     exact (m_prepend v) src (S n) (v :: prefix src n) n.
   Proof.
     pose proof (prepend_list_exact [v] src (S n)) as H. simpl length in H.
-    replace (S n - 1) with n in H by lia. simpl in H.
-    rewrite <- (prefix_length src n) in H at 1. rewrite firstn_all in H. exact H.
+    replace (S n - 1) with n in H by lia.
+    change ([v] ++ prefix src n) with (v :: prefix src n) in H.
+    rewrite firstn_cons, firstn_prefix in H by lia. exact H.
   Qed.
 
   Lemma prepend_list_bounded (vs : list I) : lin_bounded (m_prepend_list vs) 1 0.
@@ -796,10 +797,10 @@ Section Prefixes.
     exact m_prefixes src n (prefix (fun i => prefix src (S i)) n) n.
   Proof.
     pose proof (run_exact_pred m_prefixes src n n) as H.
-    rewrite trace_prefixes in H. simpl fst in H. simpl snd in H. rewrite firstn_prefix in H by lia. apply H.
+    rewrite trace_prefixes in H. cbn [fst snd] in H. rewrite firstn_prefix in H by lia. apply H.
     - reflexivity.
     - rewrite prefix_length. lia.
-    - destruct n; [left; reflexivity|right]. rewrite trace_prefixes. simpl snd. rewrite prefix_length. lia.
+    - destruct n; [left; reflexivity|right]. rewrite trace_prefixes. cbn [snd]. rewrite prefix_length. lia.
   Qed.
 
   Lemma prefixes_bounded : lin_bounded (@m_prefixes I) 1 0.
